@@ -4,7 +4,7 @@ EXTENDS Update, Json, IOUtils
 App(line, file) == Serialize(line \o "\n", file, [format |-> "TXT", charset |-> "UTF-8",
                              openOptions |-> <<"WRITE","CREATE","APPEND">>]).exitValue = 0
 (* ---- checksums ---- *)
-Names  == {"X.tar.gz", "X.tar.gz.sig", "old-X.tar.gz", "X.tar.gz.asc", "Y.tar.gz", "x.tar.gz", "X.TAR.GZ"}   \* incl. names that differ in letter case only
+Names  == {"X.tar.gz", "X.tar.gz.sig", "old-X.tar.gz", "X.tar.gz.asc", "Y.tar.gz", "x.tar.gz", "X.TAR.GZ", "<blank>", "<onecol>"}   \* incl. names that differ in letter case only; <blank> / <onecol> stand for an empty line and a one-column separator line, which list no asset
 Hashes == <<"aaaa", "bbbb", "cccc">>
 VARIABLE file
 CheckInit == file \in UNION {[1..n -> Names] : n \in 0..3}
